@@ -226,7 +226,28 @@ impl Drop for Chunk {
         }
 
         unsafe {
+            #[cfg(feature = "verif_hooks")]
+            {
+                crate::verif_hooks::sched_point(crate::verif_hooks::Site::ChunkDropBefore);
+                let count = self.data().ref_count.load(atomic::Ordering::SeqCst);
+                if count == 0 || count > i32::MAX as u32 {
+                    crate::verif_hooks::chunk_error("release of a chunk whose count is already zero");
+                }
+            }
             if self.data().ref_count.fetch_sub(1, atomic::Ordering::SeqCst) == 1 {
+                #[cfg(feature = "verif_hooks")]
+                {
+                    crate::verif_hooks::sched_point(crate::verif_hooks::Site::ChunkDropDealloc);
+                    if self.data().ref_count.load(atomic::Ordering::SeqCst) != 0 {
+                        crate::verif_hooks::chunk_error("chunk resurrected between last release and dealloc");
+                    }
+                    if crate::verif_hooks::poison_enabled() {
+                        crate::verif_hooks::poison_region(
+                            self.data().begin().as_ptr() as *mut u8,
+                            self.data().len.bytes() as usize,
+                        );
+                    }
+                }
                 let layout = ChunkData::layout_for_len(self.data().len);
                 alloc::dealloc(self.ptr.as_ptr() as *mut u8, layout);
             }
@@ -246,6 +267,13 @@ impl Clone for Chunk {
             rtabort!("Refcount overflow")
         }
 
+        #[cfg(feature = "verif_hooks")]
+        {
+            crate::verif_hooks::sched_point(crate::verif_hooks::Site::ChunkClone);
+            if self.data().ref_count.load(atomic::Ordering::SeqCst) == 0 {
+                crate::verif_hooks::chunk_error("clone of a chunk whose count is zero");
+            }
+        }
         let prev = self
             .data()
             .ref_count
